@@ -360,10 +360,21 @@ def run_shard(spec):
             rng = random.Random(spec['seed'])
             idx = [0]
 
+            hangs = {}
+
             def go(family, text, **kw):
                 idx[0] += 1
-                return run_one(acc, stepper, calib, wd, idx[0] * spec['of'] + spec['index'], family, text,
-                               cli=(rng.random() < 0.03), **kw)
+                fam0 = family.split(':')[0]
+                if hangs.get(fam0, 0) >= 2:
+                    # a family that ran into the step budget twice in this worker is reported already; every further
+                    # case would burn the whole budget again and the worker would not finish
+                    acc.count('cases_skipped_after_two_budget_overruns_of_their_family')
+                    return 'skipped'
+                cls = run_one(acc, stepper, calib, wd, idx[0] * spec['of'] + spec['index'], family, text,
+                              cli=(rng.random() < 0.03), **kw)
+                if cls == 'hang':
+                    hangs[fam0] = hangs.get(fam0, 0) + 1
+                return cls
             # fixed lists are spread over the shards
             fixed = ([('structural:' + n, t, {}) for n, t in B.STRUCTURAL] +
                      [(n, t, {'fmt': 'isar'}) for n, t in B.ISAR] +
